@@ -401,29 +401,32 @@ theorem runAll_ends [Add V] (clk : Clock C) (cfg : Cfg) (inv : C → Prop) (μ :
     (∀ t ∈ tapes, TapeOk t ∧ cfg.maxIt < t.length) →
     ∀ r : Run V C,
       (r.status = .running ∨ r.status = .finished ∨ ∃ e, r.status = .raised e) →
-      (r.status = .running → clk.final r.clock = false ∧ inv r.clock ∧ μ r.clock < tapes.length) →
-      (runAll clk cfg r tapes).status = .finished ∨ ∃ e, (runAll clk cfg r tapes).status = .raised e := by
+      (r.status = .running ∨ r.status = .finished → inv r.clock) →
+      (r.status = .running → clk.final r.clock = false ∧ μ r.clock < tapes.length) →
+      ((runAll clk cfg r tapes).status = .finished ∧ inv (runAll clk cfg r tapes).clock) ∨
+        ∃ e, (runAll clk cfg r tapes).status = .raised e := by
   induction tapes with
   | nil =>
-    intro _ r hs hrun
+    intro _ r hs hinv hrun
     rcases hs with h | h | h
-    · have := (hrun h).2.2; simp at this
-    · exact Or.inl h
+    · have := (hrun h).2; simp at this
+    · exact Or.inl ⟨h, hinv (Or.inr h)⟩
     · exact Or.inr h
   | cons t ts ih =>
-    intro hok r hs hrun
+    intro hok r hs hinv hrun
     have hok' : ∀ t ∈ ts, TapeOk t ∧ cfg.maxIt < t.length := fun x hx => hok x (List.mem_cons_of_mem _ hx)
     rw [runAll_cons]
     by_cases hr : r.status = .running
     case neg =>
       rw [stepRun_not_running clk cfg r t hr]
-      exact ih hok' r hs (fun h => absurd h hr)
-    obtain ⟨hfin, hinv, hμ⟩ := hrun hr
+      exact ih hok' r hs hinv (fun h => absurd h hr)
+    obtain ⟨hfin, hμ⟩ := hrun hr
+    have hinv0 := hinv (Or.inl hr)
     have hspec := stepRun_spec clk cfg r t hr
     simp only [] at hspec
     have hnb := newton_not_both cfg t (hok t List.mem_cons_self).1 0 r.sol
     have hno := newton_not_outOfTape cfg t 0 r.sol (by have := (hok t List.mem_cons_self).2; omega)
-    obtain ⟨ca, hacc, hinva, hμa⟩ := hT.accept r.clock (newton cfg 0 t r.sol).k hinv hfin
+    obtain ⟨ca, hacc, hinva, hμa⟩ := hT.accept r.clock (newton cfg 0 t r.sol).k hinv0 hfin
     simp only [List.length_cons] at hμ
     rcases hspec with ⟨_, c2, hc2, _, _, hclk, _, _, hst, _⟩ | ⟨_, e, he, _⟩ | ⟨hb, _⟩ | ⟨ho, _⟩ |
         ⟨_, c2, hc2, _, _, hclk, _, _, hst, _⟩ | ⟨_, e, _, hst, _⟩
@@ -431,24 +434,27 @@ theorem runAll_ends [Add V] (clk : Clock C) (cfg : Cfg) (inv : C → Prop) (μ :
       subst this
       apply ih hok'
       · rw [hst]; rcases statusOf_cases clk c2 with ⟨h, _⟩ | ⟨h, _⟩ <;> simp [h]
+      · intro _; rw [hclk]; exact hinva
       · intro h
         rw [hst] at h
         rcases statusOf_cases clk c2 with ⟨_, h2⟩ | ⟨h1, _⟩
-        · rw [hclk]; exact ⟨h2, hinva, by omega⟩
+        · rw [hclk]; exact ⟨h2, by omega⟩
         · rw [h1] at h; cases h
     · rw [hacc] at he; cases he
     · exact absurd hb hnb
     · exact absurd ho hno
-    · obtain ⟨hinvr, hμr⟩ := hT.retry r.clock c2 hinv hfin hc2
+    · obtain ⟨hinvr, hμr⟩ := hT.retry r.clock c2 hinv0 hfin hc2
       apply ih hok'
       · rw [hst]; rcases statusOf_cases clk c2 with ⟨h, _⟩ | ⟨h, _⟩ <;> simp [h]
+      · intro _; rw [hclk]; exact hinvr
       · intro h
         rw [hst] at h
         rcases statusOf_cases clk c2 with ⟨_, h2⟩ | ⟨h1, _⟩
-        · rw [hclk]; exact ⟨h2, hinvr, by omega⟩
+        · rw [hclk]; exact ⟨h2, by omega⟩
         · rw [h1] at h; cases h
     · apply ih hok'
       · exact Or.inr (Or.inr ⟨e, hst⟩)
+      · intro h; rw [hst] at h; rcases h with h | h <;> cases h
       · intro h; rw [hst] at h; cases h
 
 /-! ### the tick clock satisfies the hypotheses -/
@@ -489,12 +495,17 @@ theorem simpleClock_terminating' (p : SCParams) : Terminating (simpleClock p) (s
       · rename_i hd
         have := Except.ok.inj hret
         subst this
-        simp only [] at hr hd
-        refine ⟨⟨by simp only []; omega, by simp only []; omega, ?_⟩, ?_⟩
-        · intro _; simp only []; omega
-        · simp only [scMeasure]
-          have : c.t + c.dt - c.dt = c.t := by omega
-          rw [this]; omega
+        have hr' : c.recomp < p.recompMax := hr
+        have hd' : ¬ c.dt = 1 := hd
+        have ht : c.t + c.dt - c.dt = c.t := by omega
+        refine ⟨⟨?_, ?_, ?_⟩, ?_⟩
+        · show c.recomp + 1 ≤ p.recompMax; omega
+        · show c.t + c.dt - c.dt ≤ p.final; omega
+        · show c.t + c.dt - c.dt < p.final → 1 ≤ c.dt / 2 ∧ c.t + c.dt - c.dt + c.dt / 2 ≤ p.final
+          intro _; omega
+        · show (p.final - (c.t + c.dt - c.dt)) * (p.recompMax + 1) + (p.recompMax - (c.recomp + 1))
+            < (p.final - c.t) * (p.recompMax + 1) + (p.recompMax - c.recomp)
+          rw [ht]; omega
     · cases hret
 
 /-! ### the time manager rewinds on a rejected step -/
@@ -523,5 +534,83 @@ theorem tm_retry_rewinds' (p : TM.Params) (s s' : TM.State) (h : TM.retry p (TM.
         · rw [h1]; grind
         · rw [h2]; omega
     · cases h
+
+/-! ### boundary values (repaired failure hook) -/
+
+/-- boundary values at a boundary of the time loop: the iterate slot holds the value of the last
+    accepted time, the time-step slots those of the accepted times before it -/
+structure BcInv (cfg : Cfg) (t0 : Rat) (r : Run V C) : Prop where
+  ok : (r.status = .running ∨ r.status = .finished) →
+    some r.bc.it = r.acceptedT.head? ∧ r.bc.ts.length ≤ cfg.nTs ∧
+    r.bc.ts.take (cfg.nTs - 1) = (r.acceptedT.tail ++ [t0]).take (cfg.nTs - 1)
+
+theorem beforeLoop_spec (cfg : Cfg) (t t0 : Rat) (b : Bc) (accT : List Rat) (hTs : 0 < cfg.nTs)
+    (h1 : some b.it = accT.head?) (h2 : b.ts.length ≤ cfg.nTs)
+    (h3 : b.ts.take (cfg.nTs - 1) = (accT.tail ++ [t0]).take (cfg.nTs - 1)) :
+    beforeLoop cfg t b = { it := t, ts := (accT ++ [t0]).take cfg.nTs } := by
+  obtain ⟨n, hn⟩ : ∃ n, cfg.nTs = n + 1 := ⟨cfg.nTs - 1, by omega⟩
+  cases accT with
+  | nil => simp at h1
+  | cons h tail =>
+    have hb : b.it = h := by simpa using h1
+    unfold beforeLoop
+    rw [push_eq cfg.nTs b.it b.ts hTs h2, hn]
+    rw [hn] at h3
+    simp only [Nat.add_sub_cancel, List.tail_cons] at h3
+    simp only [List.take_succ_cons, List.cons_append, h3, hb]
+
+theorem bcinv_start (clk : Clock C) (cfg : Cfg) (v0 : V) (c0 : C) (hTs : 0 < cfg.nTs) :
+    BcInv cfg (clk.time c0) (startRun clk cfg v0 c0 : Run V C) := by
+  constructor
+  intro _
+  refine ⟨rfl, ?_, rfl⟩
+  simp only [startRun, initBc, List.length_cons, List.length_nil]; omega
+
+theorem bcinv_step [Add V] (clk : Clock C) (cfg : Cfg) (t0 : Rat) (hTs : 0 < cfg.nTs) (hrw : cfg.bcRewind = true)
+    (r : Run V C) (tape : List (Iter V)) (hok : TapeOk tape) (hr : BcInv cfg t0 r) :
+    BcInv cfg t0 (stepRun clk cfg r tape) := by
+  by_cases hrun : r.status = .running
+  case neg => rw [stepRun_not_running clk cfg r tape hrun]; exact hr
+  obtain ⟨h1, h2, h3⟩ := hr.ok (Or.inl hrun)
+  have hbl := beforeLoop_spec cfg (clk.time (clk.advance r.clock)) t0 r.bc r.acceptedT hTs h1 h2 h3
+  have hspec := stepRun_spec clk cfg r tape hrun
+  simp only [] at hspec
+  have hnb := newton_not_both cfg tape hok 0 r.sol
+  obtain ⟨n, hn⟩ : ∃ n, cfg.nTs = n + 1 := ⟨cfg.nTs - 1, by omega⟩
+  obtain ⟨h, tl, hacc⟩ : ∃ h tl, r.acceptedT = h :: tl := by
+    cases hh : r.acceptedT with
+    | nil => rw [hh] at h1; simp at h1
+    | cons h tl => exact ⟨h, tl, rfl⟩
+  rcases hspec with ⟨_, c2, _, _, hbc, _, _, haccT, hst, _⟩ | ⟨_, e, _, hst, _⟩ | ⟨hb, _⟩ | ⟨_, hst, _⟩ |
+      ⟨_, c2, _, _, hbc, _, _, haccT, hst, _⟩ | ⟨_, e, _, hst, _⟩
+  · constructor
+    intro _
+    rw [hbc, hbl, haccT]
+    refine ⟨rfl, ?_, ?_⟩
+    · simp only [List.length_take]; omega
+    · simp only [hn, Nat.add_sub_cancel, List.tail_cons, List.take_take]
+      congr 1; omega
+  · constructor; intro h; rw [hst] at h; rcases h with h | h <;> cases h
+  · exact absurd hb hnb
+  · constructor; intro h; rw [hst] at h; rcases h with h | h <;> cases h
+  · constructor
+    intro _
+    rw [hbc, hrw, if_pos rfl, hbl, haccT, hacc, hn]
+    simp only [List.cons_append, List.take_succ_cons, bcRewind, List.head?_cons, List.tail_cons,
+      Nat.add_sub_cancel, List.take_take, List.length_take]
+    refine ⟨trivial, by omega, ?_⟩
+    congr 1; omega
+  · constructor; intro h; rw [hst] at h; rcases h with h | h <;> cases h
+
+theorem bcinv_runAll [Add V] (clk : Clock C) (cfg : Cfg) (t0 : Rat) (hTs : 0 < cfg.nTs) (hrw : cfg.bcRewind = true)
+    (tapes : List (List (Iter V))) (hok : ∀ t ∈ tapes, TapeOk t) :
+    ∀ r : Run V C, BcInv cfg t0 r → BcInv cfg t0 (runAll clk cfg r tapes) := by
+  induction tapes with
+  | nil => intro r h; exact h
+  | cons t ts ih =>
+    intro r h
+    rw [runAll_cons]
+    exact ih (fun x hx => hok x (List.mem_cons_of_mem _ hx)) _
+      (bcinv_step clk cfg t0 hTs hrw r t (hok t List.mem_cons_self) h)
 
 end PorepyVerif.C10
